@@ -326,6 +326,10 @@ func init() {
 			if tier == "thorough" {
 				n = 600
 			}
+			// long-lived channels: more than 256 packets per channel, so that the one-byte packet number wraps
+			for i := 0; i < 3; i++ {
+				emit(Case{Line: fmt.Sprintf("mux tx %d %d %d", 1+i, 300+rng.Intn(100), rng.Intn(1<<30)), Kind: "tx-wrap"})
+			}
 			for i := 0; i < n; i++ {
 				emit(Case{Line: fmt.Sprintf("mux route %d %d %d", 1+rng.Intn(8), 1+rng.Intn(12), rng.Intn(1<<30)), Kind: "route"})
 				emit(Case{Line: fmt.Sprintf("mux tx %d %d %d", 1+rng.Intn(8), 1+rng.Intn(6), rng.Intn(1<<30)), Kind: "tx"})
@@ -358,7 +362,7 @@ func init() {
 		},
 		FindingKey: func(line, out, clause string) string { return strings.Fields(line)[1] + ":" + clause },
 		Nontrivial: func(line, out string) bool { return true },
-		Rule:       "real Conn over the in-memory transport: 4..48 concurrent NewChannel calls from 1..16 goroutines against a peer acknowledging every setup (ids distinct, all registered); setup with other acknowledgement types; 1..8 channels with 1..12 packages each interleaved at random by the peer incl. packets for unknown channels, one consumer goroutine per channel (exact per-channel sequences, connection error count); 1..8 concurrent senders (per-channel ids, consecutive packet numbers, data intact). The thorough tier repeats more often; run the harness binary built with -race for the race detector evidence",
+		Rule:       "real Conn over the in-memory transport: 4..48 concurrent NewChannel calls from 1..16 goroutines against a peer acknowledging every setup (ids distinct, all registered); setup with other acknowledgement types; 1..8 channels with 1..12 packages each interleaved at random by the peer incl. packets for unknown channels, one consumer goroutine per channel (exact per-channel sequences, connection error count); 1..8 concurrent senders (per-channel ids, consecutive packet numbers, data intact), incl. channels that send more than 256 packets (packet number wrap). The thorough tier repeats more often; run the harness binary built with -race for the race detector evidence",
 		Serial:     false,
 		Isolate:    true,
 		NoShrink:   true,
